@@ -45,6 +45,10 @@ type (
 		_lastOffset atomic.Value
 		_recovered  atomic.Value
 
+		// Receive order number of the packet whose offset is stored in _lastOffset.
+		lastOffsetSeq uint64
+		lastOffsetMu  sync.Mutex
+
 		config    *ClientSocketConfig
 		namespace string
 		manager   *Manager
@@ -146,6 +150,18 @@ func (s *clientSocket) setPID(pid adapter.PrivateSessionID) {
 func (s *clientSocket) lastOffset() (lastOffset string, ok bool) {
 	lastOffset, ok = s._lastOffset.Load().(string)
 	return
+}
+
+// setLastOffsetOrdered records the offset of a packet unless the offset of a packet
+// that was received later has already been recorded (handlers run out of order).
+func (s *clientSocket) setLastOffsetOrdered(lastOffset string, seq uint64) {
+	s.lastOffsetMu.Lock()
+	defer s.lastOffsetMu.Unlock()
+	if seq < s.lastOffsetSeq {
+		return
+	}
+	s.lastOffsetSeq = seq
+	s.setLastOffset(lastOffset)
 }
 
 func (s *clientSocket) setLastOffset(lastOffset string) {
@@ -345,7 +361,7 @@ func (s *clientSocket) sendConnectPacket(authData any) {
 	go s.sendControlPacket(parser.PacketTypeConnect, v)
 }
 
-func (s *clientSocket) onPacket(header *parser.PacketHeader, eventName string, decode parser.Decode) {
+func (s *clientSocket) onPacket(header *parser.PacketHeader, eventName string, decode parser.Decode, seq uint64) {
 	switch header.Type {
 	case parser.PacketTypeConnect:
 		s.onConnect(header, decode)
@@ -370,7 +386,7 @@ func (s *clientSocket) onPacket(header *parser.PacketHeader, eventName string, d
 		}
 
 		for _, handler := range s.eventHandlers.getAll(eventName) {
-			s.onEvent(handler, header, decode, sendAck)
+			s.onEvent(handler, header, decode, sendAck, seq)
 		}
 	case parser.PacketTypeAck, parser.PacketTypeBinaryAck:
 		s.onAck(header, decode)
@@ -560,6 +576,7 @@ func (s *clientSocket) onEvent(
 	header *parser.PacketHeader,
 	decode parser.Decode,
 	sendAck ackSendFunc,
+	seq uint64,
 ) (hasAckFunc bool) {
 	// With connection state recovery enabled, the server appends the offset of the packet
 	// (a string) after the arguments of every event that carries no ack ID. Decode it
@@ -586,7 +603,7 @@ func (s *clientSocket) onEvent(
 
 	if expectOffset && len(values) == numArgs+1 {
 		if offset := values[numArgs].Elem().String(); offset != "" {
-			s.setLastOffset(offset)
+			s.setLastOffsetOrdered(offset, seq)
 		}
 		values = values[:numArgs]
 		for len(values) < len(handler.inputArgs) {
